@@ -77,10 +77,17 @@ VEC2_OPS = ('BinSame \\cup {"ctorCopy", "ctorMove", "destroy", "swap2", "ctorDef
             '"popBack", "clear", "reserve", "shrinkToFit", "assignN", "relocate", "insert1", "erase1"}')
 
 
+# 2-edge coverage of the pair models: first edge = an operation that rewrites hidden representation state (moves, swaps,
+# shrink_to_fit, clear, relocate), second edge = (quick) an operation that would expose a corrupted encoding / (thorough) any
+PAIR_FIRST = ['assignMove', 'ctorMove', 'swap', 'swap2', 'shrinkToFit', 'clear', 'relocate', 'assignCopy']
+PAIR_FIRST_QUICK = ['assignMove', 'ctorMove', 'swap', 'shrinkToFit', 'clear']
+PAIR_SECOND_QUICK = ['assignMove', 'assignCopy', 'swap', 'pushBack', 'eq', 'destroy', 'shrinkToFit']
+
+
 def params_vec2(tier):
     if tier == 'thorough':
-        return dict(Vals=[1, 2], MaxLen=3, MaxCnt=2, Its=['ptr'], RLens=[0, 1], Ops=VEC2_OPS, WalkLen=400)
-    return dict(Vals=[1, 2], MaxLen=2, MaxCnt=1, Its=['ptr'], RLens=[0, 1], Ops=VEC2_OPS, WalkLen=300)
+        return dict(Vals=[1, 2], MaxLen=3, MaxCnt=2, Its=['ptr'], RLens=[0, 1], Ops=VEC2_OPS, WalkLen=400, Pairs=[PAIR_FIRST, None])
+    return dict(Vals=[1, 2], MaxLen=2, MaxCnt=1, Its=['ptr'], RLens=[0, 1], Ops=VEC2_OPS, WalkLen=300, Pairs=[PAIR_FIRST_QUICK, PAIR_SECOND_QUICK])
 
 
 def params_sim(tier):
@@ -154,6 +161,8 @@ def suite_vec(tier, seed):
                 p2 = dict(params)
                 if getattr(cfg, 'maxlen', None):
                     p2['MaxLen'] = cfg.maxlen
+                if 'Pairs' in p2 and not any(m['flav'] == 'small' for _, m in cfg.slots):
+                    del p2['Pairs']
                 jobs.append((kind, cfg, p2))
         models = {}
 
@@ -995,10 +1004,43 @@ def suite_readers(tier, seed):
     return cached_suite('readers', tier, seed, compute)
 
 
+def suite_words(tier, seed):
+    """Design model of the two-word encoding (SmallVecWords.tla): refinement check for the repaired design, and the
+    counterexamples TLC must find when the pinned tree's defects are switched back on (anti-vacuity)."""
+    def compute(d):
+        md = workdir(d, 'mc_words')
+        vlib.copy_specs(md)
+        ns = [1, 2, 3] if tier == 'quick' else [1, 2, 3, 4, 5]
+        kmax = 15 if tier == 'quick' else 31
+        runs = [(n, dev) for n in ns for dev in ('{}', '{"F01"}', '{"F07"}')]
+
+        def one(job):
+            n, dev = job
+            cfg = 'SVW_%d_%s.cfg' % (n, dev.strip('{}"') or 'none')
+            with open(os.path.join(md, cfg), 'w') as f:
+                f.write('SPECIFICATION Spec\nCONSTANTS\n N = %d\n KMax = %d\n Dev = %s\nINVARIANT Inv\nCONSTRAINT Bound\nCHECK_DEADLOCK FALSE\n' % (n, kmax, dev))
+            rc, out, dt = vlib.tlc(md, 'SmallVecWords', cfg, workers=2, timeout=1200, heap='4g')
+            counts = vlib.parse_counts(out) or (0, 0)
+            return dict(n=n, dev=dev, ok='No error has been found' in out, violated='Invariant Inv is violated' in out, generated=counts[0], states=counts[1])
+        rs = pmap(one, runs, workers=4)
+        bad = [r for r in rs if (r['dev'] == '{}' and not r['ok']) or (r['dev'] != '{}' and not r['violated'])]
+        if bad:
+            raise InfraError('MODEL-ERROR: SmallVecWords: %s' % json.dumps(bad))
+        good = [r for r in rs if r['dev'] == '{}']
+        res = dict(config='design_words', tag='design', trace='', lines=0, viol=[], is_ref=False, kind='design', wall=0, run_wall=0, script='',
+                   stats=dict(ops=0, execs=0, drift=0, skipped=0),
+                   mc=dict(states=sum(r['states'] for r in good), transitions=sum(r['generated'] for r in good),
+                           model=dict(module='SmallVecWords', N=ns, KMax=kmax), params=dict(Dev='{}'), ops={},
+                           sample_walk=[dict(note='refinement DecodeOK /\\ Contract holds on every reachable state; with Dev={"F01"} and Dev={"F07"} TLC finds the counterexample',
+                                             counterexamples_found=[(r['n'], r['dev']) for r in rs if r['dev'] != '{}' and r['violated']])]))
+        return dict(results=[res])
+    return cached_suite('words', tier, seed, compute)
+
+
 SUITE_FN = {}
 PROP_SUITES = {
-    'C01': ['vec'], 'C02': ['vec', 'swap2', 'fault', 'sets', 'setfault'], 'C03': ['sets'], 'C04': ['sets'], 'C05': ['vec', 'sets'],
-    'C06': ['vec', 'swap2', 'fault', 'sets', 'setfault'], 'C07': ['vec'], 'C08': ['limit'], 'C09': ['fault', 'setfault'],
+    'C01': ['vec'], 'C02': ['vec', 'swap2', 'fault', 'sets', 'setfault'], 'C03': ['sets'], 'C04': ['sets'], 'C05': ['vec', 'sets', 'words'],
+    'C06': ['vec', 'swap2', 'fault', 'sets', 'setfault'], 'C07': ['vec', 'words'], 'C08': ['limit'], 'C09': ['fault', 'setfault'],
     'C10': ['vec'], 'C11': ['sets'], 'C12': ['sets'], 'C13': ['swap2'], 'C14': ['vec', 'swap2', 'sets', 'static'], 'C18': ['vec', 'growth'],
     'C19': ['sets', 'bigsets'], 'C20': ['vec', 'sets', 'readers'], 'C15': ['memalgo'], 'C17': ['static'], 'C16': ['matrix'],
 }
@@ -1006,7 +1048,7 @@ PROP_SUITES = {
 
 def run_property(prop, tier, seed):
     SUITE_FN.update(vec=suite_vec, swap2=suite_swap2, fault=suite_fault, limit=suite_limit, growth=suite_growth, sets=suite_sets,
-                    setfault=suite_setfault, bigsets=suite_bigsets, memalgo=suite_memalgo, static=suite_static, matrix=suite_matrix, readers=suite_readers)
+                    setfault=suite_setfault, bigsets=suite_bigsets, memalgo=suite_memalgo, static=suite_static, matrix=suite_matrix, readers=suite_readers, words=suite_words)
     if prop not in PROP_SUITES:
         raise InfraError('no check for property %s' % prop)
     results, wall, cached, extra = [], 0.0, True, {}
